@@ -210,7 +210,10 @@ def compare(a, b):
     if a[0] != b[0]:
         return False
     if len(a) > 1 and a[1] != b[1]:
-        r1, w1, _ = parse_out(b[0]); r2, w2, _ = parse_out(b[1])
+        try:
+            r1, w1, _ = parse_out(b[0]); r2, w2, _ = parse_out(b[1])
+        except (ValueError, KeyError):
+            return False            # a line that is not a result (e.g. the driver rejected the case): a disagreement
         return w1 == w2 and r1 == r2
     return True
 
@@ -271,7 +274,8 @@ def run(ctx):
         base = vlib.load_corpus("C09")
         cases, hist = gen_cases(ctx, 12000 if quick else 400000, 4000 if quick else 100000)
         cases = [c for c in base if not c[0].startswith("pf print")] + cases
-    ctx.correspond("snprintf", exe, cases, oracle=oracle, compare=compare, nontrivial=lambda c: "25" in c[0].split()[3])
+    tmo = 240 if ctx.tier == "quick" else 3000      # the thorough tier gives each of the 16 workers ~30000 cases
+    ctx.correspond("snprintf", exe, cases, oracle=oracle, compare=compare, nontrivial=lambda c: "25" in c[0].split()[3], timeout=tmo)
     # the type-directed print family, unbounded forms
     if ctx.replay_cases is None:
         r = ctx.rng
@@ -282,7 +286,7 @@ def run(ctx):
             for k, _ in objs: kinds[k] = kinds.get(k, 0) + 1
             toks = obj_tokens(objs)
             pcases.append(["pf print %s %d %s" % (fn, 100000, toks) for fn in ("bp", "bpl", "sp", "spl", "fp", "fpl")])
-        ctx.correspond("print-family", exe, pcases, oracle=print_oracle, nontrivial=lambda c: True)
+        ctx.correspond("print-family", exe, pcases, oracle=print_oracle, nontrivial=lambda c: True, timeout=tmo)
         ctx.extra_cov["print_object_kinds"] = kinds
     ctx.extra_cov["conversions"] = hist
     ctx.extra_cov["glibc_deviations_from_exact_reference"] = dict(GLIBC_DEV)
